@@ -76,6 +76,7 @@ type SinkFault struct {
 	Kind   string `json:"kind"`             // err0 | torn | full (all bytes accepted, and an error)
 	Arg    int    `json:"arg"`              // torn: selects how many bytes are accepted
 	Sticky bool   `json:"sticky"`           // call K and all later calls fail
+	Burst  int    `json:"burst,omitempty"`  // calls K..K+Burst-1 fail (an outage that ends): 0 and 1 mean call K only
 	Flavor string `json:"flavor,omitempty"` // error value returned: see Flavors ("" = plain)
 }
 
@@ -179,7 +180,7 @@ func (s *Sink) write(p []byte, op string) (int, error) {
 	call := SinkCall{Off: len(s.Data), Len: len(p), API: s.CurAPI, Op: op}
 	n := len(p)
 	var err error
-	if f := s.Fault; f != nil && (k == f.K || (f.Sticky && k > f.K)) {
+	if f := s.Fault; f != nil && (k == f.K || (f.Sticky && k > f.K) || (k > f.K && k < f.K+f.Burst)) {
 		err = ErrFor(f.Flavor)
 		n = 0
 		if f.Kind == "torn" && len(p) >= 2 {
@@ -224,6 +225,7 @@ type SrcFault struct {
 	Kind   string `json:"kind"`             // err0 | partial | full (all requested bytes, and an error) | early_eof   (a Seek call fails with an error whatever the kind)
 	Arg    int    `json:"arg"`              // partial: selects how many bytes are returned
 	Sticky bool   `json:"sticky"`           // call K and all later calls fail
+	Burst  int    `json:"burst,omitempty"`  // calls K..K+Burst-1 fail (an outage that ends): 0 and 1 mean call K only
 	Flavor string `json:"flavor,omitempty"` // error value returned: see Flavors ("" = plain)
 }
 
@@ -318,7 +320,7 @@ func (s *Source) SetFrag(frag *Frag) {
 func (s *Source) faulted() bool {
 	k := s.Stats.Calls
 	f := s.Fault
-	return f != nil && (k == f.K || (f.Sticky && k > f.K))
+	return f != nil && (k == f.K || (f.Sticky && k > f.K) || (k > f.K && k < f.K+f.Burst))
 }
 
 func (s *Source) fire(op string) {
